@@ -3,6 +3,7 @@
 // rules live in /verif/rules/*.py.
 #include "clang/AST/ASTConsumer.h"
 #include "clang/AST/ASTContext.h"
+#include "clang/Lex/Lexer.h"
 #include "clang/AST/RecursiveASTVisitor.h"
 #include "clang/AST/RecordLayout.h"
 #include "clang/AST/ExprCXX.h"
@@ -470,6 +471,9 @@ json::Value FuncDumper::cfg(const FunctionDecl *F, const Stmt *Body) {
     BJ["el"] = std::move(El);
     if (const Stmt *T = B->getTerminatorStmt()) {
       BJ["tk"] = T->getStmtClassName();
+      // a branch that is the expansion of assert(): present only without NDEBUG, never counted as a guard
+      { SourceLocation L = T->getBeginLoc();
+        if (L.isMacroID() && Lexer::getImmediateMacroName(L, D.SM, D.Ctx.getLangOpts()) == "assert") BJ["am"] = true; }
       auto It = StmtId.find(T);
       if (It != StmtId.end()) BJ["ts"] = (int64_t)It->second;
       if (const Stmt *C = B->getTerminatorCondition()) {
